@@ -294,6 +294,7 @@ func C13() int {
 			}
 			inv[p] = j
 			c.Count("components_checked_form_and_injectivity", 1)
+			c.Eval(r + "\x00" + names[j])
 		}
 		idxOf := make(map[string]int, nC)
 		for j := 0; j < nC; j++ {
@@ -367,6 +368,7 @@ func C13() int {
 	}
 	c.Assume("component-level names contain no '.' and no leading '$'; dotted and '$'-prefixed names are judged only relative to their components")
 	c.Assume("two names are 'different components' when their UTF-8 byte strings differ (no Unicode normalisation)")
+	c.Set("evaluation_unit", "one (replacement, name component) pair whose pseudonym was checked for form, injectivity and stability; dotted / '$' / order / process relations are counted under observations")
 	return c.Finish("HashName called through the in-process agent on the complete ≤3-character dictionary over 40 symbols plus generated identifiers, Unicode names and the empty component, their dotted compositions (depth 2–5) and '$'-prefixed forms, under 5 replacement strings, in sorted / reversed / shuffled order, in two separate processes, with option changes between batches and with a poisoned side table; plus pseudonyms read out of real CLI -w / -f output. Oracles are relational (determinism, injectivity, homomorphism over '.', '$'-insensitivity, form)")
 }
 
